@@ -51,11 +51,19 @@ func genJobBlock(rng *rand.Rand, idx int) jobBlock {
 	id := fmt.Sprintf("job%d", idx)
 	var l []string
 	l = append(l, fmt.Sprintf("  %s:", id))
-	switch rng.Intn(5) {
+	switch rng.Intn(9) {
 	case 0:
 		l = append(l, "    runs-on: [self-hosted, linux, gpu]")
 	case 1:
 		l = append(l, "    runs-on: ubuntu-lates")
+	case 2:
+		l = append(l, "    runs-on: windows-latest")
+	case 3:
+		l = append(l, "    runs-on: macos-latest")
+	case 4:
+		// no runs-on at all (reported as missing; the other rules still visit the job)
+	case 5:
+		l = append(l, "    runs-on: [self-hosted, windows]")
 	default:
 		l = append(l, "    runs-on: ubuntu-latest")
 	}
@@ -84,7 +92,7 @@ func genJobBlock(rng *rand.Rand, idx int) jobBlock {
 		}
 	}
 	if rng.Intn(3) == 0 {
-		l = append(l, "    defaults:", "      run:", "        shell: "+[]string{"bash", "pwsh", "fish"}[rng.Intn(3)])
+		l = append(l, "    defaults:", "      run:", "        shell: "+[]string{"bash", "pwsh", "fish", "cmd", "sh"}[rng.Intn(5)])
 	}
 	if jobLevel >= 0 && strings.HasPrefix(c09JobLevel[jobLevel][0], "    env") {
 		l = append(l, c09JobLevel[jobLevel]...)
@@ -112,7 +120,7 @@ func genJobBlock(rng *rand.Rand, idx int) jobBlock {
 		default:
 			l = append(l, "      - run: "+c09RunExprs[rng.Intn(len(c09RunExprs))])
 			if rng.Intn(4) == 0 {
-				l = append(l, "        shell: "+[]string{"bash", "python", "nosuchshell"}[rng.Intn(3)])
+				l = append(l, "        shell: "+[]string{"bash", "python", "nosuchshell", "sh", "cmd", "powershell", "pwsh"}[rng.Intn(7)])
 			}
 		}
 	}
@@ -178,7 +186,7 @@ func runC09(c *ctx, r *Report) error {
 	if !c.quick {
 		nPools, nComps = 2500, 16
 	}
-	r.Rule = fmt.Sprintf("%d pools of 6 independently generated jobs (runner labels, matrices incl. object filters `.*` before/after property access on the same row, default shells, env names, if conditions, steps with ids / actions / scripts with good and bad expressions), each job linted alone under a fixed header and then in %d random subsets × orders; also a job `base` with outputs that other jobs may need; the multiset of (line relative to the job, column, kind, message) of every job must be the same in every composition; same for steps: a step's diagnostics must not depend on LATER steps or on unrelated earlier steps; non-trivial = distinct (pool, composition) pairs where the job under comparison has at least one diagnostic", nPools, nComps)
+	r.Rule = fmt.Sprintf("%d pools of 6 independently generated jobs (runner labels incl. Windows / macOS / none at all, matrices incl. object filters `.*` before/after property access on the same row, default shells, env names, if conditions, steps with ids / actions / scripts with good and bad expressions), each job linted alone under a fixed header and then in %d random subsets × orders; also a job `base` with outputs that other jobs may need; the multiset of (line relative to the job, column, kind, message) of every job must be the same in every composition; same for steps: a step's diagnostics must not depend on LATER steps or on unrelated earlier steps; non-trivial = distinct (pool, composition) pairs where the job under comparison has at least one diagnostic", nPools, nComps)
 	headerDispatch := []string{"on:", "  workflow_dispatch:", "    inputs:", "      who:", "        type: string", "      include:", "        type: string"}
 	// with workflow_dispatch inputs the checker works on a private copy of the github context; `on: push` keeps the shared one
 	headerPush := []string{"on: push"}
